@@ -13,7 +13,7 @@ use vcore::gen::{self, StreamCfg};
 use vcore::rt::{self, digest_str, esc, Acc, Args, Report};
 use vcore::vt::{self, St};
 
-const RULE: &str = "A case is (colour choice, sink kind, constructor, operation sequence). Operation sequences of 0..30 ops from {write, write_all, write_vectored, write! with 1..3 fragments, write!/writeln! whose format string is a bare literal (35 escape-rich literals), flush}; write_vectored also with no buffers at all or only empty ones over data from G-STREAM cut at generated offsets (also inside escape sequences and multi-byte characters); choices {Auto, AlwaysAnsi, Always, Never} (Auto under two pinned environments: NO_COLOR=1 and CLICOLOR_FORCE=1); sinks {Vec<u8>, Box<dyn Write>, &mut Vec<u8>, File}. Oracle: Never => sink == what a StripStream<Vec<u8>> fed the same ops holds (same return values) == strip(bytes reported consumed); AlwaysAnsi/Always => sink == bytes reported consumed; current_choice reports the mode in force; into_inner returns exactly what was delivered; to_adapted_string strips or forwards according to the stream's choice. Non-trivial = at least two different write-family calls and an op boundary inside an escape sequence (distinct by case).";
+const RULE: &str = "A case is (colour choice, sink kind, constructor, operation sequence). Operation sequences of 0..30 ops from {write, write_all, write_vectored, write! with 1..3 fragments, write!/writeln! whose format string is a bare literal (35 escape-rich literals), write! with char-typed arguments, write! of a Display that uses Formatter::write_char / write_str / nested write! / write_fmt, flush}; data also with one printable run of 64..200 KiB; write_vectored also with no buffers at all or only empty ones over data from G-STREAM cut at generated offsets (also inside escape sequences and multi-byte characters); choices {Auto, AlwaysAnsi, Always, Never} (Auto under two pinned environments: NO_COLOR=1 and CLICOLOR_FORCE=1); sinks {Vec<u8>, Box<dyn Write>, &mut Vec<u8>, File}. Oracle: Never => sink == what a StripStream<Vec<u8>> fed the same ops holds (same return values) == strip(bytes reported consumed); AlwaysAnsi/Always => sink == bytes reported consumed; current_choice reports the mode in force; into_inner returns exactly what was delivered; to_adapted_string strips or forwards according to the stream's choice. lock(): on the standard streams (child process, pipes) a write, lock(), write sequence delivers what the unlocked stream delivers. Non-trivial = at least two different write-family calls and an op boundary inside an escape sequence (distinct by case).";
 
 #[derive(Clone, Debug, Serialize, Deserialize, PartialEq)]
 enum Op {
@@ -23,6 +23,12 @@ enum Op {
     Fmt(Vec<String>),
     /// write!/writeln! with literal #i of vcore::lits as the whole format string
     Lit(usize, bool),
+    /// the text as char-typed arguments: write!(w, "{}", ch) per character (every third one with a
+    /// fill character taken from the text: `{:c>1}`-style padding that adds nothing)
+    FmtChars(String),
+    /// one Display argument that emits the text through a mix of Formatter::write_str, write_char,
+    /// a nested write!(f, ..) and pad
+    FmtMixed(String),
     Flush,
 }
 
@@ -60,6 +66,31 @@ impl Write for Shared {
     }
 }
 
+/// a Display that reaches the underlying fmt::Write through every Formatter entry point
+struct Mixed<'a>(&'a str);
+impl std::fmt::Display for Mixed<'_> {
+    fn fmt(&self, f: &mut std::fmt::Formatter<'_>) -> std::fmt::Result {
+        use std::fmt::Write as _;
+        let mut rest = self.0;
+        let mut k = 0usize;
+        while let Some(ch) = rest.chars().next() {
+            // pieces of 1..3 characters
+            let n = 1 + k % 3;
+            let end = rest.char_indices().nth(n).map(|(i, _)| i).unwrap_or(rest.len());
+            let piece = &rest[..end];
+            match k % 4 {
+                0 => f.write_char(ch).and_then(|_| f.write_str(&piece[ch.len_utf8()..]))?,
+                1 => f.write_str(piece)?,
+                2 => write!(f, "{}", piece)?,
+                _ => f.write_fmt(format_args!("{piece}"))?,
+            }
+            rest = &rest[end..];
+            k += 1;
+        }
+        Ok(())
+    }
+}
+
 /// apply one op; returns the bytes the writer reported as consumed
 fn apply(w: &mut dyn Write, op: &Op) -> Result<(Vec<u8>, Option<usize>), String> {
     match op {
@@ -92,6 +123,22 @@ fn apply(w: &mut dyn Write, op: &Op) -> Result<(Vec<u8>, Option<usize>), String>
             };
             r.map_err(|e| format!("write! failed: {e}"))?;
             Ok((p.concat().into_bytes(), None))
+        }
+        Op::FmtChars(t) => {
+            for (k, ch) in t.chars().enumerate() {
+                let r = match k % 3 {
+                    0 => write!(w, "{}", ch),
+                    1 => write!(w, "{ch}"),
+                    // width 1 never pads a one-character argument; the fill character itself is not emitted
+                    _ => write!(w, "{:é<1}", ch),
+                };
+                r.map_err(|e| format!("write! of a char failed: {e}"))?;
+            }
+            Ok((t.clone().into_bytes(), None))
+        }
+        Op::FmtMixed(t) => {
+            write!(w, "{}", Mixed(t)).map_err(|e| format!("write! of a mixed Display failed: {e}"))?;
+            Ok((t.clone().into_bytes(), None))
         }
         Op::Lit(i, nl) => {
             vcore::lits::write_lit(w, *i, *nl).map_err(|e| format!("write! of a literal failed: {e}"))?;
@@ -260,6 +307,8 @@ fn check_case(case: &Case) -> Result<bool, String> {
             Op::Vectored(b) => (2, b.concat()),
             Op::Fmt(p) => (3, p.concat().into_bytes()),
             Op::Lit(i, nl) => (4, vcore::lits::lit_bytes(*i, *nl)),
+            Op::FmtChars(t) => (5, t.clone().into_bytes()),
+            Op::FmtMixed(t) => (6, t.clone().into_bytes()),
             Op::Flush => continue,
         };
         kinds.insert(k);
@@ -271,15 +320,19 @@ fn check_case(case: &Case) -> Result<bool, String> {
     Ok(kinds.len() >= 2 && split_inside)
 }
 
-fn arb_case(no_color: bool) -> impl Strategy<Value = Case> {
+fn arb_case(no_color: bool, huge: bool) -> impl Strategy<Value = Case> {
     (
         0u8..4,
         prop_oneof![3 => Just(0u8), 3 => Just(1u8), 2 => Just(2u8), 1 => Just(3u8)],
         any::<bool>(),
-        prop_oneof![gen::stream(StreamCfg { max_items: 14, ..StreamCfg::ALL }), gen::stream(StreamCfg { max_items: 14, ..StreamCfg::UTF8 })],
-        proptest::collection::vec((any::<u16>(), 0u8..12, any::<u16>()), 0..30),
+        prop_oneof![gen::stream(StreamCfg { max_items: if huge { 6 } else { 14 }, ..StreamCfg::ALL }), gen::stream(StreamCfg { max_items: if huge { 6 } else { 14 }, ..StreamCfg::UTF8 })],
+        proptest::collection::vec((any::<u16>(), 0u8..15, any::<u16>()), 0..if huge { 4 } else { 30 }),
+        (gen::huge_text(false), any::<u16>()),
     )
-        .prop_map(move |(choice, sink, via_new, items, cuts)| {
+        .prop_map(move |(choice, sink, via_new, mut items, cuts, (big, frac))| {
+            if huge {
+                gen::insert_huge(&mut items, big, frac);
+            }
             let bytes = gen::render(&items);
             let len = bytes.len();
             let mut points: Vec<(usize, u8, u16)> = cuts
@@ -317,6 +370,12 @@ fn arb_case(no_color: bool) -> impl Strategy<Value = Case> {
                         Err(_) => Op::WriteAll(piece),
                     },
                     9 => Op::Flush,
+                    12 | 13 | 14 => match String::from_utf8(piece.clone()) {
+                        // char-typed arguments character by character: only for short pieces
+                        Ok(s) if kind == 12 && s.len() <= 4096 => Op::FmtChars(s),
+                        Ok(s) => Op::FmtMixed(s),
+                        Err(_) => Op::Write(piece),
+                    },
                     _ => {
                         // the piece first, then a literal formatted write (often the tail of a sequence the piece left open)
                         ops.push(Op::WriteAll(piece));
@@ -346,7 +405,7 @@ fn run(args: &Args, rep: &mut Report) {
                 name,
                 args.seed,
                 tier.pick(20_000, 2_000_000),
-                move || arb_case(no_color),
+                move || arb_case(no_color, false),
                 |case, acc: &mut Acc| {
                     acc.class(&format!("choice-{:?}", choice_of(case.choice)));
                     acc.class(["sink-Vec", "sink-BoxDyn", "sink-&mut Vec", "sink-File"][case.sink as usize]);
@@ -359,19 +418,180 @@ fn run(args: &Args, rep: &mut Report) {
             ),
         );
     }
+    set_env(true);
+    rep.add(
+        "op-sequences-huge",
+        false,
+        "0..4 ops over G-STREAM data with one printable run of 64..200 KiB x 4 choices x 4 sinks (NO_COLOR=1)",
+        prop_par(
+            "op-sequences-huge",
+            args.seed,
+            tier.pick(120, 6_000),
+            || arb_case(true, true),
+            |case, _: &mut Acc| match check_case(case) {
+                Ok(_) => Verdict::ok(Some(digest_str(&serde_json::to_string(case).unwrap()))),
+                Err(m) => Verdict { result: Err(m), nontrivial: None },
+            },
+            |case| serde_json::to_value(case).unwrap(),
+        ),
+    );
     for k in ["NO_COLOR", "CLICOLOR_FORCE"] {
         std::env::remove_var(k);
     }
+    // lock() on the standard streams keeps the stream's mode and state
+    let cases = lock_cases(args.seed, tier.pick(400, 20_000));
+    let mut acc = Acc::new();
+    let mut notes = vec![];
+    check_lock(&cases, &mut acc, &mut notes);
+    for n in &notes {
+        rep.note(n);
+    }
+    acc.samples.push(json!({"first": "A\\x1b[", "then": "lock()", "second": "1;31mB\\x1b[0mC", "expected": "ABC"}));
+    rep.add(
+        "lock-carries-state",
+        false,
+        "G-STREAM inputs cut at a generated position (half of them inside a sequence / character): write_all(first); lock(); write_all(second) through AutoStream(Never), StripStream and AutoStream(AlwaysAnsi) over the child process's own stdout and stderr, read back through pipes",
+        vec![acc],
+    );
     let _ = json!(null);
 }
 
+// ------------------------------------------------------------- lock() on the standard streams
+
+const LOCK_FLAVOURS: [&str; 6] = ["never-stdout", "never-stderr", "strip-stdout", "strip-stderr", "always-stdout", "always-stderr"];
+
+fn lock_marker(k: usize) -> Vec<u8> {
+    format!("\n@@END {k}@@\n").into_bytes()
+}
+
+/// Child mode: for every case (two pieces of one input) write the first piece through the stream
+/// over the process's own stdout / stderr, `lock()` the stream, write the second piece through
+/// the locked stream; a marker written to the raw std stream separates the cases.
+fn lock_child(flavour: &str, case_file: &str) {
+    let cases: Vec<(String, String)> = serde_json::from_slice(&std::fs::read(case_file).expect("case file")).expect("cases");
+    for (k, (a, b)) in cases.iter().enumerate() {
+        let (a, b) = (rt::unhex(a), rt::unhex(b));
+        macro_rules! go {
+            ($stream:expr, $raw:expr) => {{
+                let mut s = $stream;
+                let _ = s.write_all(&a);
+                let mut l = s.lock();
+                let _ = l.write_all(&b);
+                let _ = l.flush();
+                drop(l);
+                let mut raw = $raw;
+                let _ = raw.write_all(&lock_marker(k));
+                let _ = raw.flush();
+            }};
+        }
+        match flavour {
+            "never-stdout" => go!(AutoStream::new(std::io::stdout(), ColorChoice::Never), std::io::stdout()),
+            "never-stderr" => go!(AutoStream::new(std::io::stderr(), ColorChoice::Never), std::io::stderr()),
+            "strip-stdout" => go!(StripStream::new(std::io::stdout()), std::io::stdout()),
+            "strip-stderr" => go!(StripStream::new(std::io::stderr()), std::io::stderr()),
+            "always-stdout" => go!(AutoStream::new(std::io::stdout(), ColorChoice::AlwaysAnsi), std::io::stdout()),
+            _ => go!(AutoStream::new(std::io::stderr(), ColorChoice::AlwaysAnsi), std::io::stderr()),
+        }
+    }
+}
+
+fn check_lock(cases: &[(Vec<u8>, Vec<u8>)], acc: &mut Acc, notes: &mut Vec<String>) {
+    let exe = match std::env::current_exe() {
+        Ok(e) => e,
+        Err(_) => return,
+    };
+    let file = rt::tmp_dir().join(format!("c08-lock-{}.json", std::process::id()));
+    let enc: Vec<(String, String)> = cases.iter().map(|(a, b)| (rt::hex(a), rt::hex(b))).collect();
+    if std::fs::write(&file, serde_json::to_vec(&enc).unwrap()).is_err() {
+        return;
+    }
+    for flavour in LOCK_FLAVOURS {
+        let out = std::process::Command::new(&exe).arg("--lock-child").arg(flavour).arg(&file).stdin(std::process::Stdio::null()).output();
+        let out = match out {
+            Ok(o) if o.status.success() => o,
+            _ => {
+                notes.push(format!("lock-carries-state: the child for {flavour} could not be run"));
+                continue;
+            }
+        };
+        let bytes = if flavour.ends_with("stdout") { out.stdout } else { out.stderr };
+        let mut rest: &[u8] = &bytes;
+        for (k, (a, b)) in cases.iter().enumerate() {
+            acc.eval();
+            let marker = lock_marker(k);
+            let Some(end) = rest.windows(marker.len()).position(|w| w == marker.as_slice()) else {
+                acc.fail("lock-carries-state", json!({"flavour": flavour, "first": rt::hex(a), "second": rt::hex(b)}), format!("{flavour}: the output of case {k} is not terminated by its marker"));
+                let _ = std::fs::remove_file(&file);
+                return;
+            };
+            let got = &rest[..end];
+            let whole: Vec<u8> = [a.as_slice(), b.as_slice()].concat();
+            let want = if flavour.starts_with("always") { whole.clone() } else { strip_bytes_vec(&whole) };
+            if got != want.as_slice() {
+                acc.fail(
+                    "lock-carries-state",
+                    json!({"flavour": flavour, "first": rt::hex(a), "second": rt::hex(b)}),
+                    format!("{flavour}: write_all({}) ; lock() ; write_all({}) delivered {} but the stream without the lock() delivers {}", esc(a), esc(b), esc(got), esc(&want)),
+                );
+                let _ = std::fs::remove_file(&file);
+                return;
+            }
+            // non-trivial: the lock() happened inside an escape sequence or a multi-byte character
+            let mut m = vt::Machine::new();
+            m.feed_all(a);
+            if m.st != St::Ground && !b.is_empty() {
+                acc.nontrivial(digest_str(&format!("{flavour}{}{}", rt::hex(a), rt::hex(b))));
+            }
+            rest = &rest[end + marker.len()..];
+        }
+    }
+    let _ = std::fs::remove_file(&file);
+}
+
+fn lock_cases(seed: u64, n: usize) -> Vec<(Vec<u8>, Vec<u8>)> {
+    let strat = (prop_oneof![gen::stream(StreamCfg { max_items: 10, ..StreamCfg::ALL }), gen::stream(StreamCfg { max_items: 10, ..StreamCfg::UTF8 })], any::<u16>(), any::<bool>());
+    let mut out: Vec<(Vec<u8>, Vec<u8>)> = vec![
+        (b"A\x1b[".to_vec(), b"1;31mB\x1b[0mC".to_vec()),
+        (b"A\x1b]0;ti".to_vec(), b"tle\x07B".to_vec()),
+        (b"A\xe2".to_vec(), b"\x9c\x93B".to_vec()),
+        (b"A\x1bP1;2".to_vec(), b"q\x1b\\B".to_vec()),
+        (b"".to_vec(), b"x".to_vec()),
+        (b"x\x1b".to_vec(), b"".to_vec()),
+    ];
+    for (items, frac, inside) in vcore::drive::sample_values(rt::derive_seed(seed, "lock-cases", 0), n, &strat) {
+        let bytes = gen::render(&items);
+        if bytes.windows(5).any(|w| w == b"@@END") {
+            continue;
+        }
+        let inner = gen::interior_cuts(&bytes);
+        let cut = if inside && !inner.is_empty() { inner[(frac as usize * inner.len()) >> 16] } else { (frac as usize * (bytes.len() + 1)) >> 16 };
+        out.push((bytes[..cut].to_vec(), bytes[cut..].to_vec()));
+    }
+    out
+}
+
 fn replay(_sub: &str, case: &Value) -> Result<(), String> {
+    if _sub == "lock-carries-state" {
+        let (a, b) = (rt::unhex(case["first"].as_str().unwrap_or("")), rt::unhex(case["second"].as_str().unwrap_or("")));
+        let mut acc = Acc::new();
+        let mut notes = vec![];
+        check_lock(&[(a, b)], &mut acc, &mut notes);
+        return match acc.failure {
+            Some(f) => Err(f.message),
+            None => Ok(()),
+        };
+    }
     let case: Case = serde_json::from_value(case.clone()).map_err(|e| format!("bad case: {e}"))?;
     colorchoice::ColorChoice::Auto.write_global();
     check_case(&case).map(|_| ())
 }
 
 fn main() {
+    let argv: Vec<String> = std::env::args().collect();
+    if argv.get(1).map(|s| s.as_str()) == Some("--lock-child") {
+        lock_child(argv.get(2).map(|s| s.as_str()).unwrap_or(""), argv.get(3).map(|s| s.as_str()).unwrap_or(""));
+        return;
+    }
     rt::quiet_panics();
     rt::main("C08", RULE, run, &replay)
 }
